@@ -161,3 +161,11 @@ def router_probe():
     if key not in _built:
         _built[key] = cargo_build("router_probe")
     return _built[key]
+
+
+def required_keys():
+    """{family: [data keys]} ICU4X demands from a provider to build that family's formatter (runtime_probe required)."""
+    p = subprocess.run([runtime_probe(), "required"], stdout=subprocess.PIPE, text=True, timeout=60)
+    if p.returncode != 0:
+        raise Inconclusive("runtime_probe required failed")
+    return json.loads(p.stdout)
